@@ -412,6 +412,12 @@ def summarise(chk: Check, ctx: Any, rule: str, prop: str, thorough: bool) -> Non
         by_family(badfb, "fallback-exact", lambda r: ("the fallback text does not compile: " + r["why"]) if r.get("stage") == "recompile-raised" else
                   ("compiling the fallback text does not reproduce the input: " + r["fallback_diff"]), "fallback text reproduces the ops one for one", fb)
         chk.extra["roundtrip"]["fallback_programs"] = len(fb)
+        # "whenever it cannot produce structured ExplorerScript, the text is marked SsbScript": text without the marker that the ExplorerScript
+        # compiler rejects is neither of the two answers
+        plain = [r for r in done if not r.get("fallback") and r.get("stage") in ("ok", "recompile-raised")]
+        neither = [r for r in plain if r.get("stage") == "recompile-raised"]
+        by_family(neither, "structured-or-marked", lambda r: "the returned text has no is-ssb-script marker but is not ExplorerScript either, the compiler rejects it: " + r["why"],
+                  "text without the marker is accepted by the ExplorerScript compiler", plain)
     elif prop == "C02":
         structured = [r for r in done if not r.get("fallback") and r.get("stage") in ("ok", "recompile-raised") and not r.get("jump_only_cycle")]
         bad = [r for r in structured if r.get("stage") == "recompile-raised" or r.get("behaviour")]
